@@ -51,6 +51,7 @@ class Gen:
         self.canary = None       # None | 'entry' | 'exit'  (vacuity guard variants, see vrun.run_canaries)
         self.fn_props = {}
         self.loop_counts = {}
+        self.syntactic = []      # census obligations: (fn, name, ok, detail, props)
 
     # ------------------------------------------------------------------
     def rf(self, rel):
@@ -243,6 +244,9 @@ class Gen:
                 body = pat.sub('', body, count=1)
                 dropped.append(fld)
                 self.norm_counts['N4_dropped_fields'] += 1
+        if 'opaque' in opts:
+            # the type is used by name only: its fields are hidden from Verus (listed as assumed)
+            self.emit('#[verifier::external_body]', {'kind': 'gen'})
         if opts.get('external_derive'):
             # the derived impls are left outside Verus; what is assumed about them is stated (and listed as trusted)
             self.emit('#[verifier::external_derive]', {'kind': 'gen'})
@@ -339,6 +343,21 @@ class Gen:
         body_close = rsx.match_close(masked, body_open)
         loops = rsx.fn_loops(text)
         self.loop_counts[qual] = len(loops)
+        if record and not is_stub:
+            # syntactic census obligations (facts about the shape of the real body, not solver obligations)
+            if 'maxloops' in opts:
+                ok = len(loops) <= int(opts['maxloops'])
+                self.syntactic.append((qual, 'census/at-most-%s-loops' % opts['maxloops'], ok,
+                                       '%d loop(s) in the body' % len(loops), props, (rel, it.line_start)))
+            if 'calls' in opts:
+                for spec in opts['calls'].split(','):
+                    callee, want = spec.split(':')
+                    n = len(re.findall(r'\b%s\s*\(' % re.escape(callee), masked[body_open:body_close]))
+                    self.syntactic.append((qual, 'census/calls-%s-exactly-%s-times' % (callee, want), n == int(want),
+                                           '%d call site(s) of %s in the body' % (n, callee), props, (rel, it.line_start)))
+            if 'norecursion' in opts:
+                n = len(re.findall(r'\b%s\s*\(' % re.escape(name), masked[body_open:body_close]))
+                self.syntactic.append((qual, 'census/not-self-recursive', n == 0, '%d self call(s)' % n, props, (rel, it.line_start)))
         inserts = []  # (offset, order, section dict)
         if self.canary and not is_stub and 'no_canary' not in opts:
             sections = self.add_canary(sections)
@@ -374,8 +393,11 @@ class Gen:
             self.stubs.append({'fn': qual, 'file': rel, 'lines': [it.line_start, it.line_end], 'sha256': it.sha256})
             return
         inserts.sort(key=lambda x: x[0])
+        fn_attr = '#[verifier::exec_allows_no_decreases_clause]' if 'nodecreases' in opts else None
         if header:
             self.emit(header.replace('\n//__ASSOC__', '') if '//__ASSOC__' in header else header + ' {', {'kind': 'gen'})
+        if fn_attr:
+            self.emit(fn_attr, {'kind': 'gen'})
         pos = 0
         cur_line = first
         for off, sec in inserts:
@@ -425,23 +447,34 @@ class Gen:
         return sections
 
     def emit_section(self, qual, sec, props):
-        name = None
-        cprops = props
-        idx = 0
+        """A clause is named by a trailing `//# name [props]` on its LAST line: the name covers every line
+        since the previous named line.  Lines after the last name are `<section>#k`."""
         label = sec['sec'] + (str(sec['k']) if sec['k'] else '')
-        for k, ln in enumerate(sec['lines']):
+        lines = sec['lines']
+        names = [None] * len(lines)
+        cprops_l = [props] * len(lines)
+        start = 0
+        for k, ln in enumerate(lines):
             m = re.search(r'//#\s*([A-Za-z0-9_.\-]+)(?:\s*\[([^\]]*)\])?', ln)
             if m:
-                name = m.group(1)
-                cprops = [p.strip() for p in m.group(2).split(',')] if m.group(2) else props
-            elif ln.strip() and name is None:
-                idx += 1
-            cname = name if name else '%s#%d' % (label, idx)
+                cp = [p.strip() for p in m.group(2).split(',')] if m.group(2) else props
+                for j in range(start, k + 1):
+                    names[j] = m.group(1)
+                    cprops_l[j] = cp
+                start = k + 1
+        idx = 0
+        for k, ln in enumerate(lines):
+            if names[k] is None:
+                if ln.strip():
+                    idx += 1
+                cname = '%s#%d' % (label, idx)
+            else:
+                cname = names[k]
             self.lines.append(ln)
             self.origin.append({'kind': 'inject', 'fn': qual, 'section': label, 'clause': cname,
-                                'props': cprops, 'uline': sec['uline'] + 1 + k})
+                                'props': cprops_l[k], 'uline': sec['uline'] + 1 + k})
             if ln.strip():
-                self.clauses[(qual, label, cname)] = cprops
+                self.clauses[(qual, label, cname)] = cprops_l[k]
 
     def n2_ref_patterns(self, text):
         n = 0
